@@ -46,7 +46,7 @@ type Case struct {
 var layouts = []geom.Layout{geom.XY, geom.XYZ, geom.XYM, geom.XYZM, geom.Layout(5), geom.Layout(6)}
 
 func genPts(t *rapid.T) (string, [][2]int64) {
-	shape := rapid.SampledFrom([]string{"lattice", "uniform", "circle", "collinear", "dups", "lattice", "two-lines", "dense", "dense"}).Draw(t, "shape")
+	shape := rapid.SampledFrom([]string{"lattice", "uniform", "circle", "collinear", "dups", "lattice", "two-lines", "dense", "dense", "bezout-strip"}).Draw(t, "shape")
 	var n int
 	switch rapid.IntRange(0, 5).Draw(t, "sizeclass") {
 	case 0:
@@ -89,6 +89,36 @@ func genPts(t *rapid.T) (string, [][2]int64) {
 				a, b = b, a
 			}
 			pts = append(pts, [2]int64{x, y})
+		}
+	case "bezout-strip":
+		// points a + m*(dx,dy) + s*(u,v), s in {-1,0,1}, where dx, dy are coprime whole
+		// numbers of a drawn width (8..30 bits) and dx*v - dy*u = 1: a strip one lattice
+		// step wide along a long direction. Every turn has a determinant of a few units
+		// made of products of twice the width, which a float64 determinant rounds from 27
+		// bits on; the extreme points are decided by those signs.
+		k := uint(rapid.SampledFrom([]int{8, 16, 24, 25, 26, 27, 28, 29, 30}).Draw(t, "bk"))
+		lo, hi := int64(1)<<(k-1), int64(1)<<k-1
+		dx, dy := rapid.Int64Range(lo, hi).Draw(t, "bdx"), rapid.Int64Range(lo, hi).Draw(t, "bdy")
+		x0, y0, x1, y1, r0, r1 := int64(1), int64(0), int64(0), int64(1), dx, dy
+		for r1 != 0 {
+			q := r0 / r1
+			r0, r1 = r1, r0-q*r1
+			x0, x1 = x1, x0-q*x1
+			y0, y1 = y1, y0-q*y1
+		}
+		dx, dy = dx/r0, dy/r0
+		u, v := -y0, x0
+		if rapid.Bool().Draw(t, "bneg") {
+			dx, u = -dx, -u
+		}
+		offx, offy = -dx/2, -dy/2 // around the origin: every ordinate within the width
+		if n > 12 {
+			n = 4 + n%9
+		}
+		for i := 0; i < n; i++ {
+			m := rapid.Int64Range(0, 1).Draw(t, "bm")
+			sdet := rapid.Int64Range(-1, 1).Draw(t, "bs")
+			pts = append(pts, [2]int64{offx + m*dx + sdet*u, offy + m*dy + sdet*v})
 		}
 	case "uniform":
 		k := uint(rapid.IntRange(2, 20).Draw(t, "k"))
